@@ -7,15 +7,22 @@ the proof's first query.
 
 Every builder call is modelled by the value it computes; every `connect` / `assert_bool` /
 division is a constraint: the outcome is `ok` iff all constraints hold on the given inputs (that
-is what the runner reports), `buildErr` when `verify_fri_circuit` returns `InvalidProofShape`
-(or the proof cannot be fed to the circuit's inputs because a sibling vector has the wrong
-length), `panic` where construction would index out of range.
+is what the runner reports), `buildErr` when `verify_circuit` / `verify_fri_circuit` return
+`InvalidProofShape`, `panic` where construction would index out of range.
 
-Mirrored functions: shape validation (verifier.rs:1408-1518), `open_input` (height grouping,
+Followed repairs in /repo: 93b4a80 / 9d0167a (`open_input`), f783d84 (`log_arity = 0`), c030fca
+(`log_max_height` against the two-adicity), fc0321f (sibling count compared inside
+`verify_fri_circuit`, checked arithmetic), 0e5036a (a proof without fold phase is verified, not
+refused: `circuitRun` has no "at least one phase" test, `subgroupStartsC` / `foldChainC` over an
+empty schedule are `[]` / the initial reduced opening).
+
+Mirrored functions: shape validation (head of `verify_fri_circuit`), `open_input` (height grouping,
 shared-opening-point fast path, per-matrix fallback, per-batch zero check at `log_blowup`),
 `precompute_evaluation_points`, roll-in map, `precompute_subgroup_starts`, `reconstruct_evals`
 (closed forms for arity 2/4/8 and the one-hot path), `fold_one_phase` (arity-2 formula and the
-sequential arity-2 folds), `compute_final_query_point`, `evaluate_polynomial`.
+sequential arity-2 folds), `compute_final_query_point`, `evaluate_polynomial`. The part of a query
+after `open_input` is `queryTailC` (`rollInsC`, `foldChainC`), so that theorems can speak about it
+(`P3R.C07.query_tail_zero_phase`, `zero_phase_query_agree`).
 -/
 import P3R.Model.FriNative
 
@@ -198,7 +205,9 @@ def openInputC (env : Env K) (p : Params) (logMax : Nat) (bits : List K) (alpha 
     | none => pure ()
   return sortDesc (acc.map fun e => (e.1, e.2.2))
 
-/-- `precompute_subgroup_starts`. `cum i = Σ_{t<i} logArities[t]`. -/
+/-- `precompute_subgroup_starts`. `cum i = Σ_{t<i} logArities[t]`. With no fold phase the result is
+the empty list (repo fix 0e5036a: the function returns before touching `log_arities[0]`; here both
+branches map over the empty schedule). -/
 def subgroupStartsC (env : Env K) (bits : List K) (logMax : Nat) (logArities : List Nat) : List K :=
   let cum := fun i => (logArities.take i).foldl (· + ·) 0
   let lf := fun i => logMax - cum (i + 1)
@@ -216,6 +225,66 @@ def finalPointC (env : Env K) (bits : List K) (logMax total : Nat) : K :=
   let rev := (List.replicate total (0 : K)) ++ ((bits.drop total).take (logMax - total)).reverse
   selChain (env.tw logMax) (rev.take logMax)
 
+/-- The index bits of a query as the runner receives them (public inputs, little-endian). -/
+def indexBits (logMax index : Nat) : List K :=
+  (List.range logMax).map fun k => if (index / 2 ^ k) % 2 = 1 then 1 else 0
+
+/-- Roll-in map of one query: every reduced opening below the maximum height is attached to the
+phase whose folded height equals its height (two at one phase: `InvalidProofShape`); an opening at
+a height no phase reaches is constrained to zero. -/
+def rollInsC (foldedHeightAfter : List Nat) : List (Nat × K) → List (Nat × K) → CM (List (Nat × K))
+  | [], acc => pure acc
+  | (h, ro) :: rest, acc =>
+    match foldedHeightAfter.idxOf? h with
+    | some i =>
+      if acc.any (·.1 = i) then throw .build
+      else rollInsC foldedHeightAfter rest (acc ++ [(i, ro)])
+    | none => do
+      need (decide (ro = 0))
+      rollInsC foldedHeightAfter rest acc
+
+/-- The fold chain of one query (`fold_chain_circuit`, and the same `fold_one_phase` calls inside
+the MMCS loop): `phases` are (phase index, opening) pairs, `consumed` the index bits used so far.
+With no phase the result is the initial reduced opening itself. -/
+def foldChainC (env : Env K) (bits betas starts : List K) (rollIns : List (Nat × K)) :
+    List (Nat × Phase K) → Nat → K → CM K
+  | [], _, folded => pure folded
+  | (i, ph) :: rest, consumed, folded => do
+    let la := ph.logArity
+    let beta := betas.getD i 0
+    let ss := starts.getD i 0
+    let gbits := (bits.drop consumed).take la
+    let f1 ← (if la = 1 then do
+        need (decide (ss ≠ 0))
+        pure (foldArity2Path folded (ph.siblings.getD 0 0) (gbits.getD 0 0) beta ss)
+      else do
+        let evals := reconstructEvals folded ph.siblings gbits
+        if la ≠ 0 then need (decide (ss ≠ 0))
+        pure (seqFold la evals beta ss (env.tw la)) : CM K)
+    let f2 := match rollIns.find? (·.1 = i) with
+      | some (_, ro) => expPow2 beta la * ro + f1
+      | none => f1
+    foldChainC env bits betas starts rollIns rest (consumed + la) f2
+
+/-- Everything `verify_fri_circuit` does for one query after `open_input`: first reduced opening
+at the maximum height, roll-in map, final query point, final polynomial evaluation, fold chain,
+`connect(folded, final_poly_eval)`. -/
+def queryTailC (env : Env K) (logMax total : Nat) (logArities : List Nat) (betas finalPoly bits : List K)
+    (phases : List (Phase K)) (ros : List (Nat × K)) : CM Unit := do
+  let numPhases := betas.length
+  let cum := fun i => (logArities.take i).foldl (· + ·) 0
+  let foldedHeightAfter := (List.range numPhases).map fun i => logMax - cum (i + 1)
+  match ros with
+  | [] => throw .build
+  | (h0, ro0) :: rest =>
+    if h0 ≠ logMax then throw .build
+    let rollIns ← rollInsC foldedHeightAfter rest []
+    let fpoint := finalPointC env bits logMax total
+    let feval := evalPolyCircuit finalPoly fpoint
+    let starts := subgroupStartsC env bits logMax logArities
+    let folded ← foldChainC env bits betas starts rollIns ((List.range numPhases).zip phases) 0 ro0
+    need (decide (folded = feval))
+
 /-- The whole circuit on one case. -/
 def circuitRun (env : Env K) (p : Params) (alpha : K) (betas : List K)
     (batches : List (List (MatClaim K))) (pf : Proof K) : CM Unit := do
@@ -224,7 +293,11 @@ def circuitRun (env : Env K) (p : Params) (alpha : K) (betas : List K)
     | q :: _ => q.phases.map (·.logArity)
   let total := logArities.foldl (· + ·) 0
   let logMax := total + p.logFinalPolyLen + p.logBlowup
+  -- `verify_circuit` (pcs/fri/targets.rs): the index must fit the base field's bit width …
   if logMax > 31 then throw .build
+  -- … and the LDE domain must be a two-adic subgroup (repo fix c030fca for finding F9i; it used to
+  -- reach `two_adic_generator`'s assertion)
+  if logMax > env.twoAdicity then throw .build
   let numPhases := betas.length
   if numPhases ≠ pf.numCommits then throw .build
   if numPhases ≠ pf.numPow then throw .build
@@ -232,53 +305,22 @@ def circuitRun (env : Env K) (p : Params) (alpha : K) (betas : List K)
   -- fixes/C07-2: a phase with `log_arity = 0` is rejected (native `checked_log_arity`)
   if logArities.any (· = 0) then throw .build
   if pf.queries.isEmpty then throw .build
-  if betas.isEmpty then throw .build
+  -- no "at least one fold phase" test any more (repo fix 0e5036a for finding C07-F4): a proof
+  -- without fold phase is verified like any other, the fold chain is then empty
   for q in pf.queries do
     if q.phases.length ≠ numPhases then throw .build
     for (ph, la) in q.phases.zip logArities do
       if ph.logArity ≠ la then throw .build
-      -- the sibling inputs are allocated from `log_arity`; a different count cannot be fed
+      -- `verify_fri_circuit` compares the sibling coefficient count with
+      -- `(2^log_arity − 1)·EF::DIMENSION`, computed with checked arithmetic (repo fix fc0321f for
+      -- finding F9d; the targets are allocated from the proof's own count). `la ≤ logMax ≤ 31`
+      -- here, so the checked computation never overflows and equals the ℕ value
       if ph.siblings.length ≠ 2 ^ la - 1 then throw .build
   if pf.finalPoly.length ≠ 2 ^ p.logFinalPolyLen then throw .build
-  let cum := fun i => (logArities.take i).foldl (· + ·) 0
-  let foldedHeightAfter := (List.range numPhases).map fun i => logMax - cum (i + 1)
   for q in pf.queries do
-    let bits : List K := (List.range logMax).map fun k => if (q.index / 2 ^ k) % 2 = 1 then 1 else 0
+    let bits : List K := indexBits logMax q.index
     let ros ← openInputC env p logMax bits alpha batches q.opened
-    match ros with
-    | [] => throw .build
-    | (h0, ro0) :: rest =>
-      if h0 ≠ logMax then throw .build
-      -- roll-in map
-      let mut rollIns : List (Nat × K) := []
-      for (h, ro) in rest do
-        match foldedHeightAfter.idxOf? h with
-        | some i =>
-          if rollIns.any (·.1 = i) then throw .build
-          rollIns := rollIns ++ [(i, ro)]
-        | none => need (decide (ro = 0))
-      let fpoint := finalPointC env bits logMax total
-      let feval := evalPolyCircuit pf.finalPoly fpoint
-      let starts := subgroupStartsC env bits logMax logArities
-      let mut folded := ro0
-      let mut consumed := 0
-      for (i, ph) in (List.range numPhases).zip q.phases do
-        let la := ph.logArity
-        let beta := betas.getD i 0
-        let ss := starts.getD i 0
-        let gbits := (bits.drop consumed).take la
-        if la = 1 then
-          need (decide (ss ≠ 0))
-          folded := foldArity2Path folded (ph.siblings.getD 0 0) (gbits.getD 0 0) beta ss
-        else
-          let evals := reconstructEvals folded ph.siblings gbits
-          if la ≠ 0 then need (decide (ss ≠ 0))
-          folded := seqFold la evals beta ss (env.tw la)
-        match rollIns.find? (·.1 = i) with
-        | some (_, ro) => folded := expPow2 beta la * ro + folded
-        | none => pure ()
-        consumed := consumed + la
-      need (decide (folded = feval))
+    queryTailC env logMax total logArities betas pf.finalPoly bits q.phases ros
   return ()
 
 def circuitOutcome (env : Env K) (p : Params) (alpha : K) (betas : List K)
